@@ -223,6 +223,20 @@ def _slice_is(t, lo, hi):
     return t.op == "slice" and len(t.a) == 3 and ((lo is None and is_const(t.a[0], None)) or (lo is not None and is_const(t.a[0], lo))) and ((hi is None and is_const(t.a[1], None)) or (hi is not None and is_const(t.a[1], hi))) and is_const(t.a[2], None)
 
 
+def _where_component(t):
+    """(x, M, k) for x[np.where(M)[k]] with a one-argument np.where (np.nonzero), else None"""
+    if t.op == "sub" and t.a[1].op == "sub" and t.a[1].a[1].op == "const" and t.a[1].a[1].a[0] in (0.0, 1.0) and not isinstance(t.a[1].a[1].a[0], bool):
+        w = t.a[1].a[0]
+        if w.op == "call" and callee_name(w.a[0]) == "np.where" and len(w.a[1]) == 1 and not w.a[2]:
+            return t.a[0], w.a[1][0], int(t.a[1].a[1].a[0])
+    return None
+
+
+def _as_mask(m):
+    """the Boolean mask np.where(m) reads: m itself, or m != 0 for numbers"""
+    return m if _boolean_valued(m) else cmp("!=", m, const(0.0))
+
+
 def binop(op, l, r):
     if op == "-" and l.op == "sub" and r.op == "sub" and l.a[0] is r.a[0] and _slice_is(l.a[1], 1, None) and _slice_is(r.a[1], None, -1):
         return call(ext("np.diff"), (l.a[0],))  # x[1:] - x[:-1] is np.diff(x) (along the first axis; the only axis of a 1-d x)
@@ -234,6 +248,12 @@ def binop(op, l, r):
         if ca is not None and cb is not None:
             strip_ = lambda z: z.a[1][0] if z.op == "call" and callee_name(z.a[0]) in ("np.ravel", "np.flatten") and len(z.a[1]) == 1 else z
             return call(ext("np.outer"), (strip_(ca), strip_(cb)))
+    if op == "*":
+        # a[rows] * b[cols] with (rows, cols) = np.where(M) is np.outer(a, b)[M]: the products at the marked cells, row-major
+        for x, y in ((l, r), (r, l)):
+            wx, wy = _where_component(x), _where_component(y)
+            if wx is not None and wy is not None and wx[1] is wy[1] and wx[2] == 0 and wy[2] == 1:
+                return sub(call(ext("np.outer"), (wx[0], wy[0])), _as_mask(wx[1]))
     if op == "*" and _boolean_valued(l) and _boolean_valued(r):
         op = "&"  # the product of two Boolean arrays is their conjunction
     if op == "+" and (_is_str(l) or _is_str(r)):
@@ -580,6 +600,8 @@ def call(fn, args=(), kw=()):
         dt = args[1] if len(args) > 1 else d_.get("dtype")
         if dt is not None and ((dt.op == "builtin" and dt.a[0] == "float") or (dt.op == "ext" and dt.a[0] in ("np.float64", "np.double", "np.float_"))) and set(d_) <= {"dtype", "count"} and len(args) <= 3:
             return call(ext("np.array"), (mk("comp", "list", *args[0].a[1:]),))
+    if name == "np.sum" and len(args) == 1 and len(kw) == 1 and kw[0][0] == "axis" and is_const(kw[0][1], 0) and _boolean_valued(args[0]):
+        return call(mk("builtin", "sum"), (args[0],))  # mask.sum(axis=0) is the builtin sum over the first axis
     if name == "re.match" and len(args) == 2 and not kw and args[0].op == "glob":
         return method_call(args[0], "match", (args[1],))  # re.match(PATTERN, s) is PATTERN.match(s)
     if name == "builtins.len" and len(args) == 1 and not kw and args[0].op in ("tuple", "list") and not any(z.op == "star" for z in args[0].a):
@@ -713,6 +735,11 @@ def sub(base, idx):
             k = int(idx.a[1].a[0])
             if 0 <= k < len(rows) and all(z.op in ("sub", "call", "param", "loop", "upd") and not (z.op == "sub" and z.a[1].op == "const") for z in rows):
                 return rows[k]
+    # x[np.where(M)[0], np.where(M)[1]] is x[M] (the marked cells in row-major order)
+    if idx.op == "tuple" and len(idx.a) == 2 and all(z.op == "sub" and z.a[1].op == "const" for z in idx.a):
+        w0, w1 = idx.a[0].a[0], idx.a[1].a[0]
+        if w0 is w1 and w0.op == "call" and callee_name(w0.a[0]) == "np.where" and len(w0.a[1]) == 1 and not w0.a[2] and idx.a[0].a[1].a[0] == 0 and idx.a[1].a[1].a[0] == 1 and not isinstance(idx.a[0].a[1].a[0], bool):
+            return sub(base, _as_mask(w0.a[1][0]))
     # np.argwhere(m)[i, k] is np.where(m)[k][i]
     if base.op == "call" and callee_name(base.a[0]) == "np.argwhere" and len(base.a[1]) == 1 and idx.op == "tuple" and len(idx.a) == 2 and all(z.op == "const" for z in idx.a):
         return sub(sub(call(ext("np.where"), base.a[1]), idx.a[1]), idx.a[0])
@@ -779,6 +806,19 @@ def lst(items):
 
 
 def upd(base, how, key, val):
+    # out = np.empty(len(A) + len(B)); out[:len(A)] = A; out[len(A):] = B   is   np.concatenate((A, B))
+    if how == "setitem" and key.op == "slice" and base.op == "upd" and base.a[1] == "setitem" and base.a[2].op == "slice":
+        E, k1, A, B = base.a[0], base.a[2], base.a[3], val
+        if E.op == "call" and callee_name(E.a[0]) in ("np.empty", "np.zeros") and E.a[1] and is_const(k1.a[0], None) and is_const(k1.a[2], None) and is_const(key.a[1], None) and is_const(key.a[2], None) and k1.a[1] is key.a[0]:
+            n = k1.a[1]
+            la = call(mk("builtin", "len"), (A,))
+            lb = call(mk("builtin", "len"), (B,))
+            size = E.a[1][0]
+            if n is la and size.op == "bin" and size.a[0] == "+" and {size.a[1].id, size.a[2].id} == {la.id, lb.id}:
+                dts = [v_ for k_, v_ in E.a[2] if k_ == "dtype"] + list(E.a[1][1:2])
+                # the buffer's dtype is that of the pieces (or left to default for float pieces): same values
+                if all(d_.op == "attr" and d_.a[1] == "dtype" for d_ in dts):
+                    return call(ext("np.concatenate"), (tup([A, B]),))
     return mk("upd", base, how, key, val)
 
 
